@@ -41,6 +41,19 @@ CHECKS = {
         note="Assumes the pandas API contract of pgv.pdstub, the interp1d contract stub, models as uninterpreted functions, "
              "real arithmetic. Known findings: fraction/percent quantities combined with a material-basis request.",
         technique="symbolic execution of the real accessors + z3 against the SI spec; relational lemma to permanent conversion"),
+    'C04': dict(
+        category='proof',
+        text="Frames: every accessor/interpolation/spreading-pressure call is proved (state snapshots under symbolic execution) "
+             "to write nothing but the two interpolator caches; cache invisibility is proved relationally: the outcome of a query "
+             "after any other catalogue query equals its outcome on a fresh isotherm, for all data and query values; a static "
+             "modifies-clause checker proves that no characterisation/modelling/IAST/export entry point writes through its "
+             "arguments or module state; Adsorbate getters depend on their own arguments only (typestate); module caches are "
+             "keyed, loader-written and never written through. A bounded stand-in replays ordered query pairs on real isotherms.",
+        design_ref='§3 C04, §2.4',
+        note="Assumes pandas/interp1d/CoolProp contract stubs, purity of read-only library calls (listed), freshness of accessor "
+             "results; the cache-invisibility pairs are shape-bounded (5 symbolic points). Induction over query histories from "
+             "pairwise invisibility + frame is the meta-argument. Bounded part is reported separately.",
+        technique="symbolic execution with state snapshots + relational obligations (z3); static AST frame analysis; bounded run-time pairs"),
 }
 
 NOT_YET = {
